@@ -67,6 +67,15 @@ def cause(ev):
 def run(ctx):
     q = ctx.quick()
     rnd = random.Random(ctx.seed)
+    if ctx.replay:
+        # re-execute the world of a recorded violation (tools/vcheck C02 --replay replays/C02-<seed>-<n>.json)
+        rp = json.load(open(ctx.replay))
+        world = (rp.get("detail") or {}).get("world")
+        if not world or "sched" not in world:
+            raise vlib.Inconclusive("replay file carries no world")
+        ctx.seed = int(rp.get("seed", ctx.seed))
+        ctx.tlc_mc("node", "NodeDisk.tla", "MC_NodeDiskJump.cfg", timeout=300)
+        return drive_and_judge(ctx, [world], q)
     # 1. exhaustive: the design (Dev = {}) satisfies the property for every crash point / interleaving of the
     #    asynchronous stage flushes within the stated constants
     for cfg in (MC_QUICK if q else MC_THOROUGH):
@@ -85,7 +94,7 @@ def run(ctx):
             ctx.extra.setdefault("deviations_caught", {})[cfg.replace("MC_", "").replace(".cfg", "")] = m.group(1)
             ctx.extra["model_selftests"] = ctx.extra.get("model_selftests", 0) + 1
     # 2. schedules generated by TLC
-    n_arch, n_gc = (3, 2) if q else (36, 16)
+    n_arch, n_gc = (3, 2) if q else (72, 30)
     arch = dedupe(ctx.tlc_sim("node", "NodeDiskSim.tla", "Sim_NodeDisk.cfg", num=n_arch * 2, depth=60 if q else 80, timeout=600,
                               env=None, seed=ctx.seed))
     gcs = dedupe(ctx.tlc_sim("node", "NodeDiskSim.tla", "Sim_NodeDiskGC.cfg", num=n_gc * 2, depth=90 if q else 110, timeout=600,
@@ -120,6 +129,20 @@ def run(ctx):
                        "node": "gc", "srih": True, "mtb": 2000, "gcp": 7, "maxtx": 0, "cont": 4, "pick": 0, "backend": "mem"})
         worlds.append({"sched": long_sched(4100, [(1998, 2002), (3998, 4003), (4040, 4060)], 700),
                        "node": "gc", "srih": False, "mtb": 24, "gcp": 5, "maxtx": 0, "cont": 3, "pick": 0, "backend": "mem"})
+    for i, wd in enumerate(worlds):
+        wd["wi"] = i
+    drive_and_judge(ctx, worlds, q)
+    ctx.assumptions.append("crash points are exactly the atomicity boundaries of the backend (PutChangeSet / SeekGC commits); no torn batches are fabricated; "
+                           "two batches count as unordered only if they were observed in flight at the same time and touch disjoint keys")
+    ctx.assumptions.append("database images are materialised by replaying the recorded batches into a fresh MemoryStore (checked against the real backend's content at the "
+                           "end of every run); BoltDB worlds additionally reopen copies of the database FILE taken after each commit (content checked against the replay), "
+                           "LevelDB worlds reopen a fresh LevelDB holding the replayed image (its directory cannot be copied consistently while open)")
+    ctx.assumptions.append("raw database comparison canonicalises token-transfer-info records (state.TokenTransferInfo serialises a Go map in iteration order)")
+    ctx.assumptions.append("state-sync: crash points from the first jump batch on are bound (MPT-based mode); crash points of the collection phase "
+                           "(headers / trie nodes / blocks arriving) belong to the synchronisation protocol (C20) and are not judged here")
+
+
+def drive_and_judge(ctx, worlds, q):
     ind = os.path.join(ctx.work, "in-c02")
     os.makedirs(ind, exist_ok=True)
     json.dump(worlds, open(os.path.join(ind, "worlds.json"), "w"))
@@ -177,14 +200,8 @@ def run(ctx):
         e = rec[len(rec) // 2]
         ctx.samples.append({"crash_point": {k: v for k, v in e.items() if k not in ("pre", "post", "digest")}})
     # 5. binding self-test: corrupted observations must be rejected by the judge
-    selftest(ctx, events)
-    ctx.assumptions.append("crash points are exactly the atomicity boundaries of the backend (PutChangeSet / SeekGC commits); no torn batches are fabricated; "
-                           "two batches count as unordered only if they were observed in flight at the same time and touch disjoint keys")
-    ctx.assumptions.append("database images are materialised by replaying the recorded batches into a fresh MemoryStore (checked against the real backend's content at the "
-                           "end of every run); BoltDB / LevelDB worlds additionally reopen file copies taken after each commit")
-    ctx.assumptions.append("raw database comparison canonicalises token-transfer-info records (state.TokenTransferInfo serialises a Go map in iteration order)")
-    ctx.assumptions.append("state-sync: crash points from the first jump batch on are bound (MPT-based mode); crash points of the collection phase "
-                           "(headers / trie nodes / blocks arriving) belong to the synchronisation protocol (C20) and are not judged here")
+    if not ctx.replay:
+        selftest(ctx, events)
 
 
 def selftest(ctx, events):
